@@ -40,6 +40,7 @@ def run(ctx):
     ctx.guard(r3_keys)
     ctx.guard(r4_occupancy)
     ctx.guard(r5_sizes)
+    ctx.guard(r6_bsearch)
 
 
 def _cls(ctx, name):
@@ -362,3 +363,59 @@ def r5_sizes(ctx):
                                      "bits_per_word: an exact multiple must not "
                                      "count an extra word)" % odd[0] if odd else ""),
                     text_="%s size terms" % cname)
+
+
+# -- R6: closed-interval binary search of the coordinate-list lookup -------------
+
+def r6_bsearch(ctx):
+    """coordToHandle searches [lo, hi] with hi = len - 1 and narrows with
+    lo = mid + 1 / hi = mid - 1: a closed interval, which is exhausted only
+    when lo > hi -- the loop must run while lo <= hi.  (With the half-open
+    form hi = len, hi = mid the test would be lo < hi.)"""
+    ci = _cls(ctx, "CoordinateList")
+    f = ci.methods.get("coordToHandle")
+    ctx.require(f is not None, "C20.R6: CoordinateList.coordToHandle vanished")
+    loops = [w for w in f.own_nodes() if isinstance(w, ast.While)
+             and isinstance(w.test, ast.Compare) and len(w.test.ops) == 1
+             and isinstance(w.test.left, ast.Name)
+             and isinstance(w.test.comparators[0], ast.Name)]
+    ctx.require(loops, "C20.R6: search loop of coordToHandle not found")
+    for w in loops:
+        a, b = w.test.left.id, w.test.comparators[0].id
+        op = type(w.test.ops[0])
+        # canonical form has no > / >=: `a < b` or `a <= b`
+        lo, hi = a, b
+        upd = {}
+        for st in ast.walk(w):
+            if isinstance(st, ast.Assign) and isinstance(st.targets[0], ast.Name) \
+                    and st.targets[0].id in (lo, hi):
+                upd.setdefault(st.targets[0].id, []).append(text(st.value).replace(" ", ""))
+        mids = {u.split("+")[0].split("-")[0] for us in upd.values() for u in us}
+        if len(mids) != 1 or not upd.get(lo) or not upd.get(hi):
+            raise AnalysisError("C20.R6: cannot read the narrowing steps of the "
+                                "search loop (%s)" % upd)
+        mid = mids.pop()
+        closed_hi = all(u == mid + "-1" for u in upd[hi])
+        open_hi = all(u == mid for u in upd[hi])
+        step_lo = all(u == mid + "+1" for u in upd[lo])
+        inits = [text(n.value).replace(" ", "") for n in f.own_nodes()
+                 if isinstance(n, ast.Assign) and text(n.targets[0]) == hi
+                 and not any(n is x for x in ast.walk(w))]
+        init_closed = any(i.endswith("-1") for i in inits)
+        if step_lo and closed_hi and init_closed:
+            want = ast.LtE
+        elif step_lo and open_hi and not init_closed:
+            want = ast.Lt
+        else:
+            raise AnalysisError("C20.R6: unrecognised binary-search shape "
+                                "(hi init %s, updates %s)" % (inits, upd))
+        if op is want:
+            ctx.ok("C20.R6", f, w, "search interval and loop test agree (%s)"
+                   % ("closed, lo <= hi" if want is ast.LtE else "half-open, lo < hi"),
+                   text_="coordToHandle search loop")
+        else:
+            ctx.bad("C20.R6", f, w, "coordToHandle narrows a closed interval "
+                    "(hi = len - 1, hi = mid - 1, lo = mid + 1) but loops while "
+                    "`%s`: the last slot is never probed, so the lookup can "
+                    "return the handle after the first stored coordinate not "
+                    "below the query" % text(w.test), text_="coordToHandle search loop")
